@@ -190,7 +190,7 @@ SPECS = {
                                            "thorough": ["-DVH_RANGE_MAXTICKS=3", "-DVH_SET_MAXLABELS=3", "-DVH_IMAX=%d" % tmax, "-DVH_INTERVAL=%s" % iv, "-DVH_OFFSET=%s" % off]},
       "tiers": tiers,
       "entries": [{"entry": "vh_c07_sampled_roundtrip", "label": "vh_c07_sampled_roundtrip.%s.m%d" % (tag, m), "fix": {"match": m}, "limits": {"quick": {"timeout": 900, "assert_ms": 600000}, "thorough": {"timeout": 3000, "assert_ms": 2400000}}} for m in range(5)]}
-     for (tag, iv, off, qmax, tmax, tiers) in (("iv0.1", "0.1", "0.0", 127, 10000, ["quick", "thorough"]), ("iv0.5o-1", "0.5", "-1.0", 255, 10000, ["quick", "thorough"]),
+     for (tag, iv, off, qmax, tmax, tiers) in (("iv0.1", "0.1", "0.0", 63, 10000, ["quick", "thorough"]), ("iv0.5o-1", "0.5", "-1.0", 255, 10000, ["quick", "thorough"]),
                                               ("iv0.001", "0.001", "0.0", 255, 10000, ["thorough"]), ("iv1_3", "(1.0/3.0)", "0.0", 255, 10000, ["thorough"]),
                                               ("iv3o100.3", "3.0", "100.3", 255, 10000, ["thorough"]), ("iv0.25o0.05", "0.25", "0.05", 255, 10000, ["thorough"]))
   ]},
